@@ -79,7 +79,9 @@ var (
 	switches  int
 	deadlock  bool
 	inSetup   bool // Run is re-initialising the program's packages
-	jumps     int  // time jumps in this run
+	jumps     int  // time jumps since the main task last had a wake-up time
+	nJumps    int  // time jumps in this run (reported, not recorded one by one: a 1 ms ticker and minutes of think time make millions)
+	nFired    int  // timers fired in this run
 	activity  int  // counts everything the running task does that the simulator sees (steps, events, operations begun)
 )
 
@@ -101,7 +103,7 @@ func resetTasks() {
 	schedX = uint64(cfg.SchedSeed)*0x9E3779B97F4A7C15 + 0xD1B54A32D192ED03
 	nextSw = 0
 	timers = nil
-	timerSeq, taskSeq, switches, jumps = 0, 0, 0, 0
+	timerSeq, taskSeq, switches, jumps, nJumps, nFired = 0, 0, 0, 0, 0, 0
 	conds = nil
 	wgCount = map[*sync.WaitGroup]int{}
 	onceState = map[*sync.Once]int{}
@@ -346,7 +348,7 @@ func advanceTime() bool {
 	}
 	if next > now {
 		clockMs += next - now
-		record("JUMP", "", next-now)
+		nJumps++
 	}
 	// a program in which nothing but timers ever happens again (the main task waits for
 	// something that never comes while a ticker keeps ticking) would jump forever
@@ -471,7 +473,7 @@ func fireDue() {
 		} else {
 			tm.live = false
 		}
-		record("FIRE", "", int64(tm.seq))
+		nFired++
 		if tm.fn != nil {
 			Go(tm.fn)
 		} else {
